@@ -5,6 +5,7 @@ CONSTANTS
   Bug_IntervalWraps = FALSE
   Bug_SplineOpLookupByPoint = FALSE
   Bug_IntReciprocal = FALSE
-  PROP = "ALL"
-INVARIANT Explained
+  TIER = "quick"
+ACTION_CONSTRAINT Emit
+INVARIANTS ApplyOK IdentityOK BFOK
 CHECK_DEADLOCK FALSE
